@@ -38,7 +38,7 @@ ASSUMPTIONS = [
     'with one seed-rotated k; lists of 4 are permuted by rotations and reversal only.  The ideal package and the thorough tier use the full sets.',
     'a P-specified case is judged only if the harness\' own residual changes sign between the ends of the temperature domain (the bubble/dew temperature lies inside the quantifier)',
     'the defining equation is evaluated with the package\'s own gamma/phi/pcf objects (their correctness is property C16) and Chemical.Psat',
-    'documented solver rejections (InfeasibleRegion, non-convergence RuntimeError, ValueError for an empty composition) are counted as rejected, not judged',
+    'documented solver rejections (InfeasibleRegion, non-convergence RuntimeError) are counted as rejected, not judged; any other exception type is a violation',
 ]
 TOLERANCES = {
     'fraction_sum_abs': 1e-9, 'defining_equation_residual_abs': 1e-6, 'fraction_vs_equation_abs': 1e-6,
@@ -225,8 +225,6 @@ def solve(m, kind, spec, z, val):
         return float(r.T), float(r.P), frac
     except _exc.InfeasibleRegion as e:
         raise Rejected(f'{kind}:{spec}:InfeasibleRegion', cut=False)
-    except _exc.DomainError as e:
-        raise Rejected(f'{kind}:{spec}:DomainError', cut=False)
     except RuntimeError as e:
         raise Rejected(f'{kind}:{spec}:RuntimeError', cut=False)
     except Exception as e:
